@@ -133,3 +133,81 @@ theorem parseOpts_names (s : Bytes) (t : Bytes) :
   simp [parseOpts, List.any_map, Function.comp_def, optName]
 
 end Options
+
+namespace Options
+
+/-- everything HandleOptions leaves in the CodeUtils except the process-wide naming-style flags -/
+def Cfg.core (c : Cfg) : List Bool × Bytes × Bool × Bytes × Bytes × List (Bytes × Bytes) :=
+  (c.features, c.style, c.doInit, c.pkgPrefix, c.template, c.repl)
+
+theorem act_core (env : Env) (c d : Cfg) (h : c.core = d.core) (k : Kind) (v : Bytes) :
+    (act env c k v).map Cfg.core = (act env d k v).map Cfg.core := by
+  simp only [Cfg.core, Prod.mk.injEq] at h
+  obtain ⟨h1, h2, h3, h4, h5, h6⟩ := h
+  cases k <;> simp only [act]
+  · simp [Cfg.core, h1, h2, h3, h4, h5, h6]
+  · split <;> simp [Cfg.core, h1, h2, h3, h4, h5, h6]
+  · split <;> simp [Cfg.core, h1, h2, h3, h4, h5, h6]
+  · split <;> simp [Cfg.core, h1, h2, h3, h4, h5, h6]
+  · simp [Cfg.core, h1, h2, h3, h4, h5, h6]
+  · split <;> simp [Cfg.core, h1, h2, h3, h4, h5, h6]
+  · split <;> simp [Cfg.core, h1, h2, h3, h4, h5, h6]
+
+theorem step_core (env : Env) (c d : Cfg) (h : c.core = d.core) (a : Bytes) :
+    (step env c a).map Cfg.core = (step env d a).map Cfg.core := by
+  unfold step
+  cases resolve env a with
+  | none => simp [h]
+  | some kv => exact act_core env c d h kv.1 kv.2
+
+theorem run_core (env : Env) : ∀ (as : List Bytes) (c d : Cfg), c.core = d.core →
+    (run env c as).map Cfg.core = (run env d as).map Cfg.core
+  | [], c, d, h => by simp [run, h]
+  | a :: r, c, d, h => by
+    have hs := step_core env c d h a
+    simp only [run]
+    cases hc : step env c a with
+    | none =>
+      cases hd : step env d a with
+      | none => rfl
+      | some d' => simp [hc, hd] at hs
+    | some c' =>
+      cases hd : step env d a with
+      | none => simp [hc, hd] at hs
+      | some d' =>
+        simp only [hc, hd, Option.map_some, Option.some.injEq] at hs
+        exact run_core env r c' d' hs
+
+theorem slimRule_core (env : Env) (c d : Cfg) (h : c.core = d.core) :
+    (slimRule env c).core = (slimRule env d).core := by
+  simp only [Cfg.core, Prod.mk.injEq] at h
+  obtain ⟨h1, h2, h3, h4, h5, h6⟩ := h
+  unfold slimRule
+  rw [h5]
+  split <;> simp [Cfg.core, h1, h2, h3, h4, h5, h6]
+
+theorem invalid_core (env : Env) (c d : Cfg) (h : c.core = d.core) : invalid env c = invalid env d := by
+  simp only [Cfg.core, Prod.mk.injEq] at h
+  simp [invalid, feat, h.1]
+
+/-- HandleOptions' visible outcome does not depend on the naming-style flags the process starts with -/
+theorem handleFrom_core (env : Env) (c d : Cfg) (h : c.core = d.core) (as : List Bytes) :
+    (handleFrom env c as).map Cfg.core = (handleFrom env d as).map Cfg.core := by
+  have hr := run_core env as c d h
+  unfold handleFrom
+  cases hc : run env c as with
+  | none =>
+    cases hd : run env d as with
+    | none => rfl
+    | some d' => simp [hc, hd] at hr
+  | some c' =>
+    cases hd : run env d as with
+    | none => simp [hc, hd] at hr
+    | some d' =>
+      simp only [hc, hd, Option.map_some, Option.some.injEq] at hr
+      have hs := slimRule_core env c' d' hr
+      have hi := invalid_core env _ _ hs
+      simp only [hi]
+      split <;> simp [hs]
+
+end Options
